@@ -298,7 +298,12 @@ impl CorruptSpec {
                     return false;
                 }
                 let e = 4 + (*sel as usize % n) * 4;
-                match kind % 5 {
+                match kind % 6 {
+                    5 => {
+                        // a free slot whose length runs past the string data
+                        d[e..e + 2].copy_from_slice(&0xfff0u16.to_le_bytes());
+                        d[e + 2..e + 4].copy_from_slice(&0u16.to_le_bytes());
+                    }
                     0 => d[e..e + 2].copy_from_slice(&0xfff0u16.to_le_bytes()),
                     1 => d[e + 2..e + 4].copy_from_slice(&0u16.to_le_bytes()),
                     2 => d[e + 2..e + 4].copy_from_slice(&0xffffu16.to_le_bytes()),
@@ -338,10 +343,28 @@ impl CorruptSpec {
                 };
                 match kind % 18 {
                     16 => {
-                        // high bit in the first byte of the chosen value's payload (a string byte, usually)
-                        let at = voff.saturating_add(8);
-                        if at < d.len() {
-                            d[at] |= 0x80;
+                        // high bit in one byte of a string value: first, last ones, or anywhere
+                        let ty = r32(d, voff).unwrap_or(0);
+                        let len = r32(d, voff.saturating_add(4)).unwrap_or(0);
+                        if ty == 30 && len >= 2 && len < 100_000 {
+                            let text = len - 1;
+                            let off = match (*arg >> 8) % 6 {
+                                0 => 0,
+                                1 => text - 1,
+                                2 => text.saturating_sub(2),
+                                3 => text.saturating_sub(3),
+                                4 => text / 2,
+                                _ => (*arg as usize >> 12) % text,
+                            };
+                            let at = voff.saturating_add(8 + off);
+                            if at < d.len() {
+                                d[at] |= 0x80;
+                            }
+                        } else {
+                            let at = voff.saturating_add(8);
+                            if at < d.len() {
+                                d[at] |= 0x80;
+                            }
                         }
                     }
                     17 => {
